@@ -199,24 +199,23 @@ theorem length_dropFl (k : Nat) (l : List Fl) (f : Fl)
 
 
 def isRun (f : Fl) : Bool := match f.pc with
-  | .started | .go | .done _ => true
+  | .go | .fst | .done _ => true
   | _ => false
 def isCnt (r : Bool) (f : Fl) : Bool := f.pc == .cnt r
 
 def tok (s : St) (k : Nat) : Nat :=
-  (s.sent.map Prod.fst).count k + s.queue.count k + (idxs s.inflight).count k + s.lost.count k
+  (s.sent.map Prod.fst).count k + s.queue.count k + (idxs s.inflight).count k
 
 structure Inv (cfg : Cfg) (s : St) : Prop where
   tok : ∀ k, tok s k = if k < s.dnext then 1 else 0
   dnext_le : s.dnext ≤ cfg.jobs.length
   dnext_lt : (s.dpc = .sendC ∨ s.dpc = .enq) → s.dnext < cfg.jobs.length
-  workers : s.idleK + s.idleN + s.inflight.length + s.storing.length + s.lost.length = cfg.workers
-  closed : s.dpc = .closed → s.dnext = cfg.jobs.length ∨ (s.idleK + s.idleN = 0 ∧ s.inflight = [] ∧ s.storing = [])
-  running : s.running = s.inflight.countP isRun + s.lost.length
+  workers : s.idleK + s.idleN + s.inflight.length = cfg.workers
+  closed : s.dpc = .closed → s.dnext = cfg.jobs.length ∨ cfg.workers = 0
+  running : s.running = s.inflight.countP isRun
   completed : s.completed = countKind .success s.sent + s.inflight.countP (isCnt true)
   failed : s.failed = countKind .failed s.sent + s.inflight.countP (isCnt false)
   ghost : s.startedN = s.finishedN + s.running
-  lostPanic : ∀ k ∈ s.lost, (specOf cfg k).out = .panic
 
 theorem inv_init (cfg : Cfg) : Inv cfg (init cfg) := by
   constructor <;> simp [init, tok, idxs, countKind]
@@ -225,43 +224,6 @@ theorem inv_step_disp {cfg : Cfg} {s s' : St} {a : Act} (h : Inv cfg s) (hs : st
     (ha : ∀ k, a ≠ .w k) (hd : ∀ b, a ≠ .deq b) : Inv cfg s' := by
   cases a with
   | w k => exact absurd rfl (ha k)
-  | store k =>
-    simp only [step] at hs
-    split at hs
-    · cases hs
-    · rename_i f hf
-      cases hs
-      have hmem := (findFl_some hf).2
-      have hlen := List.length_erase_of_mem hmem
-      have hpos : 0 < s.storing.length := List.length_pos_of_mem hmem
-      unfold release
-      split
-      · constructor
-        · exact h.tok
-        · exact h.dnext_le
-        · exact h.dnext_lt
-        · have := h.workers; dsimp only; omega
-        · intro hc; rcases h.closed hc with h1 | h1
-          · exact Or.inl h1
-          · rw [h1.2.2] at hpos; simp at hpos
-        · exact h.running
-        · exact h.completed
-        · exact h.failed
-        · exact h.ghost
-        · exact h.lostPanic
-      · constructor
-        · exact h.tok
-        · exact h.dnext_le
-        · exact h.dnext_lt
-        · have := h.workers; dsimp only; omega
-        · intro hc; rcases h.closed hc with h1 | h1
-          · exact Or.inl h1
-          · rw [h1.2.2] at hpos; simp at hpos
-        · exact h.running
-        · exact h.completed
-        · exact h.failed
-        · exact h.ghost
-        · exact h.lostPanic
   | deq b => exact absurd rfl (hd b)
   | dLoad =>
     simp only [step] at hs
@@ -278,7 +240,6 @@ theorem inv_step_disp {cfg : Cfg} {s s' : St} {a : Act} (h : Inv cfg s) (hs : st
       · exact h.completed
       · exact h.failed
       · exact h.ghost
-      · exact h.lostPanic
     · cases hs
   | dClose =>
     simp only [step] at hs
@@ -295,7 +256,6 @@ theorem inv_step_disp {cfg : Cfg} {s s' : St} {a : Act} (h : Inv cfg s) (hs : st
       · exact h.completed
       · exact h.failed
       · exact h.ghost
-      · exact h.lostPanic
     · cases hs
   | dSendC =>
     simp only [step] at hs
@@ -320,7 +280,6 @@ theorem inv_step_disp {cfg : Cfg} {s s' : St} {a : Act} (h : Inv cfg s) (hs : st
       · have := h.completed; simp only [countKind_insSent] at this ⊢; simpa using this
       · have := h.failed; simp only [countKind_insSent] at this ⊢; simpa using this
       · exact h.ghost
-      · exact h.lostPanic
     · cases hs
   | dEnq =>
     simp only [step] at hs
@@ -335,17 +294,11 @@ theorem inv_step_disp {cfg : Cfg} {s s' : St} {a : Act} (h : Inv cfg s) (hs : st
         · exact h.dnext_le
         · intro hh; simp at hh
         · exact h.workers
-        · intro _; right
-          simp only [alive] at hal
-          dsimp only
-          refine ⟨by omega, ?_, ?_⟩
-          · apply List.eq_nil_of_length_eq_zero; omega
-          · apply List.eq_nil_of_length_eq_zero; omega
+        · intro _; right; exact hal
         · exact h.running
         · exact h.completed
         · exact h.failed
         · exact h.ghost
-        · exact h.lostPanic
       · cases hs
         constructor
         · intro k
@@ -364,19 +317,18 @@ theorem inv_step_disp {cfg : Cfg} {s s' : St} {a : Act} (h : Inv cfg s) (hs : st
         · exact h.completed
         · exact h.failed
         · exact h.ghost
-        · exact h.lostPanic
     · cases hs
   | extCancel =>
     simp only [step] at hs
     split at hs
     · cases hs
-      exact ⟨h.tok, h.dnext_le, h.dnext_lt, h.workers, h.closed, h.running, h.completed, h.failed, h.ghost, h.lostPanic⟩
+      exact ⟨h.tok, h.dnext_le, h.dnext_lt, h.workers, h.closed, h.running, h.completed, h.failed, h.ghost⟩
     · cases hs
   | monExit =>
     simp only [step] at hs
     split at hs
     · cases hs
-      exact ⟨h.tok, h.dnext_le, h.dnext_lt, h.workers, h.closed, h.running, h.completed, h.failed, h.ghost, h.lostPanic⟩
+      exact ⟨h.tok, h.dnext_le, h.dnext_lt, h.workers, h.closed, h.running, h.completed, h.failed, h.ghost⟩
     · cases hs
 
 theorem inv_step_deq {cfg : Cfg} {s s' : St} {b : Bool} (h : Inv cfg s) (hs : step cfg s (.deq b) = some s') :
@@ -398,15 +350,11 @@ theorem inv_step_deq {cfg : Cfg} {s s' : St} {b : Bool} (h : Inv cfg s) (hs : st
       · exact h.dnext_le
       · exact h.dnext_lt
       · have := h.workers; simp only [List.length_append, List.length_cons, List.length_nil]; omega
-      · intro hc
-        rcases h.closed hc with h1 | h1
-        · exact Or.inl h1
-        · omega
+      · exact h.closed
       · have := h.running; simp only [List.countP_append, List.countP_cons, List.countP_nil, isRun] at this ⊢; simpa using this
       · have := h.completed; simp only [List.countP_append, List.countP_cons, List.countP_nil, isCnt] at this ⊢; simpa using this
       · have := h.failed; simp only [List.countP_append, List.countP_cons, List.countP_nil, isCnt] at this ⊢; simpa using this
       · exact h.ghost
-      · exact h.lostPanic
     cases b
     · simp only [Bool.false_eq_true, ↓reduceIte] at hs
       split at hs
@@ -421,42 +369,38 @@ theorem inv_step_deq {cfg : Cfg} {s s' : St} {b : Bool} (h : Inv cfg s) (hs : st
 theorem entry_facts {cfg : Cfg} {s : St} {k : Nat} {f : Fl} (h : Inv cfg s)
     (hf : findFl k s.inflight = some f) :
     f.idx = k ∧ (idxs s.inflight).count k = 1 ∧ (s.sent.map Prod.fst).count k = 0 ∧ s.queue.count k = 0
-      ∧ s.lost.count k = 0 ∧ k < s.dnext := by
+      ∧ k < s.dnext := by
   have h1 := (findFl_some hf).1
   have h2 := count_pos_of_findFl hf
   have h3 := h.tok k
   unfold tok at h3
   split at h3
-  · refine ⟨h1, ?_, ?_, ?_, ?_, ?_⟩ <;> omega
+  · refine ⟨h1, ?_, ?_, ?_, ?_⟩ <;> omega
   · omega
 
 theorem inv_upd {cfg : Cfg} {s : St} {k : Nat} {f : Fl} (h : Inv cfg s)
     (hf : findFl k s.inflight = some f) (g : Fl → Fl) (hg : ∀ x, (g x).idx = x.idx) (s' : St)
     (hin : s'.inflight = updFl k g s.inflight)
     (hcore : s'.dnext = s.dnext ∧ s'.dpc = s.dpc ∧ s'.queue = s.queue ∧ s'.idleK = s.idleK ∧
-      s'.idleN = s.idleN ∧ s'.lost = s.lost ∧ s'.sent = s.sent ∧ s'.storing = s.storing)
+      s'.idleN = s.idleN ∧ s'.sent = s.sent)
     (hrun : s'.running + (if isRun f then 1 else 0) = s.running + (if isRun (g f) then 1 else 0))
     (hc : s'.completed + (if isCnt true f then 1 else 0) = s.completed + (if isCnt true (g f) then 1 else 0))
     (hfl : s'.failed + (if isCnt false f then 1 else 0) = s.failed + (if isCnt false (g f) then 1 else 0))
     (hgh : s'.startedN = s'.finishedN + s'.running) : Inv cfg s' := by
-  obtain ⟨e1, e2, e3, e4, e5, e6, e7, e8⟩ := hcore
-  obtain ⟨_, hu, _, _, _, _⟩ := entry_facts h hf
+  obtain ⟨e1, e2, e3, e4, e5, e7⟩ := hcore
+  obtain ⟨_, hu, _, _, _⟩ := entry_facts h hf
   constructor
   · intro j
     have := h.tok j
-    simp only [tok, hin, idxs_updFl k g hg, e1, e3, e6, e7] at this ⊢
+    simp only [tok, hin, idxs_updFl k g hg, e1, e3, e7] at this ⊢
     exact this
   · rw [e1]; exact h.dnext_le
   · rw [e1, e2]; exact h.dnext_lt
-  · rw [e4, e5, e6, e8, hin, length_updFl]; exact h.workers
-  · rw [e1, e2, e4, e5, e8, hin]
-    intro hcl
-    rcases h.closed hcl with h1 | h1
-    · exact Or.inl h1
-    · have := (findFl_some hf).2; rw [h1.2.1] at this; simp at this
+  · rw [e4, e5, hin, length_updFl]; exact h.workers
+  · rw [e1, e2]; exact h.closed
   · have := countP_updFl isRun k g s.inflight f hf hu
     have := h.running
-    rw [hin, e6]; omega
+    rw [hin]; omega
   · have := countP_updFl (isCnt true) k g s.inflight f hf hu
     have := h.completed
     rw [hin, e7]; omega
@@ -464,22 +408,23 @@ theorem inv_upd {cfg : Cfg} {s : St} {k : Nat} {f : Fl} (h : Inv cfg s)
     have := h.failed
     rw [hin, e7]; omega
   · exact hgh
-  · rw [e6]; exact h.lostPanic
 
-theorem inv_send {cfg : Cfg} {s : St} {k : Nat} {f : Fl} {r : Bool} (h : Inv cfg s)
-    (hf : findFl k s.inflight = some f) (hpc : f.pc = .cnt r) (s' : St)
-    (hin : s'.inflight = dropFl k s.inflight) (hsent : s'.sent = insSent (k, kindOf r) s.sent)
-    (hw : s'.idleK + s'.idleN + s'.storing.length = s.idleK + s.idleN + s.storing.length + 1)
-    (hcore : s'.dnext = s.dnext ∧ s'.dpc = s.dpc ∧ s'.queue = s.queue ∧ s'.lost = s.lost ∧
+/-- the job leaves the in-flight list with one message on the result channel -/
+theorem inv_send {cfg : Cfg} {s : St} {k : Nat} {f : Fl} {kd : Kind} (h : Inv cfg s)
+    (hf : findFl k s.inflight = some f) (hrun : isRun f = false)
+    (hc1 : isCnt true f = (kd == Kind.success)) (hc2 : isCnt false f = (kd == Kind.failed)) (s' : St)
+    (hin : s'.inflight = dropFl k s.inflight) (hsent : s'.sent = insSent (k, kd) s.sent)
+    (hw : s'.idleK + s'.idleN = s.idleK + s.idleN + 1)
+    (hcore : s'.dnext = s.dnext ∧ s'.dpc = s.dpc ∧ s'.queue = s.queue ∧
       s'.running = s.running ∧ s'.completed = s.completed ∧ s'.failed = s.failed ∧
       s'.startedN = s.startedN ∧ s'.finishedN = s.finishedN) : Inv cfg s' := by
-  obtain ⟨e1, e2, e3, e4, e5, e6, e7, e8, e9⟩ := hcore
-  obtain ⟨_, hu, hs0, _, _, hlt⟩ := entry_facts h hf
+  obtain ⟨e1, e2, e3, e5, e6, e7, e8, e9⟩ := hcore
+  obtain ⟨_, hu, hs0, _, hlt⟩ := entry_facts h hf
   have hlen := length_dropFl k s.inflight f hf hu
   constructor
   · intro j
     have := h.tok j
-    simp only [tok, hin, hsent, count_fst_insSent, count_idxs_dropFl, e1, e3, e4, List.map_cons,
+    simp only [tok, hin, hsent, count_fst_insSent, count_idxs_dropFl, e1, e3, List.map_cons,
       List.count_cons] at this ⊢
     by_cases hj : j = k
     · subst hj; simp at this ⊢; omega
@@ -488,73 +433,20 @@ theorem inv_send {cfg : Cfg} {s : St} {k : Nat} {f : Fl} {r : Bool} (h : Inv cfg
       simpa using this
   · rw [e1]; exact h.dnext_le
   · rw [e1, e2]; exact h.dnext_lt
-  · have := h.workers; rw [e4, hin]; omega
-  · rw [e1, e2]
-    intro hcl
-    rcases h.closed hcl with h1 | h1
-    · exact Or.inl h1
-    · have := (findFl_some hf).2; rw [h1.2.1] at this; simp at this
+  · have := h.workers; rw [hin]; omega
+  · rw [e1, e2]; exact h.closed
   · have := countP_dropFl isRun k s.inflight f hf hu
-    have hr : isRun f = false := by simp [isRun, hpc]
     have := h.running
-    rw [hin, e4, e5]; simp only [hr] at *; simp at *; omega
+    rw [hin, e5]; simp only [hrun] at *; simp at *; omega
   · have := countP_dropFl (isCnt true) k s.inflight f hf hu
     have := h.completed
     rw [hin, hsent, countKind_insSent, e6]
-    cases r <;> simp [isCnt, hpc, kindOf] at * <;> omega
+    cases kd <;> simp [hc1] at * <;> omega
   · have := countP_dropFl (isCnt false) k s.inflight f hf hu
     have := h.failed
     rw [hin, hsent, countKind_insSent, e7]
-    cases r <;> simp [isCnt, hpc, kindOf] at * <;> omega
+    cases kd <;> simp [hc2] at * <;> omega
   · rw [e8, e9, e5]; exact h.ghost
-  · rw [e4]; exact h.lostPanic
-
-theorem inv_panic {cfg : Cfg} {s : St} {k : Nat} {f : Fl} (h : Inv cfg s)
-    (hf : findFl k s.inflight = some f) (hrun : isRun f = true) (hp : (specOf cfg k).out = .panic) (s' : St)
-    (hin : s'.inflight = dropFl k s.inflight) (hlost : s'.lost = ins k s.lost)
-    (hcore : s'.dnext = s.dnext ∧ s'.dpc = s.dpc ∧ s'.queue = s.queue ∧ s'.sent = s.sent ∧
-      s'.running = s.running ∧ s'.completed = s.completed ∧ s'.failed = s.failed ∧
-      s'.startedN = s.startedN ∧ s'.finishedN = s.finishedN ∧ s'.idleK = s.idleK ∧ s'.idleN = s.idleN ∧
-      s'.storing = s.storing) : Inv cfg s' := by
-  obtain ⟨e1, e2, e3, e4, e5, e6, e7, e8, e9, e10, e11, e12⟩ := hcore
-  obtain ⟨_, hu, hs0, _, _, hlt⟩ := entry_facts h hf
-  have hlen := length_dropFl k s.inflight f hf hu
-  constructor
-  · intro j
-    have := h.tok j
-    simp only [tok, hin, hlost, count_ins, count_idxs_dropFl, e1, e3, e4, List.count_cons] at this ⊢
-    by_cases hj : j = k
-    · subst hj; simp at this ⊢; omega
-    · have hkj : (k == j) = false := by simp; omega
-      simp only [hj, hkj, ↓reduceIte] at this ⊢
-      simpa using this
-  · rw [e1]; exact h.dnext_le
-  · rw [e1, e2]; exact h.dnext_lt
-  · have := h.workers; rw [e10, e11, e12, hin, hlost, length_ins]; omega
-  · rw [e1, e2]
-    intro hcl
-    rcases h.closed hcl with h1 | h1
-    · exact Or.inl h1
-    · have := (findFl_some hf).2; rw [h1.2.1] at this; simp at this
-  · have := countP_dropFl isRun k s.inflight f hf hu
-    have := h.running
-    rw [hin, hlost, length_ins, e5]; simp only [hrun] at *; simp at *; omega
-  · have := countP_dropFl (isCnt true) k s.inflight f hf hu
-    have hr : isCnt true f = false := by
-      unfold isRun at hrun; unfold isCnt; split at hrun <;> simp_all
-    have := h.completed
-    rw [hin, e4, e6]; simp only [hr] at *; simp at *; omega
-  · have := countP_dropFl (isCnt false) k s.inflight f hf hu
-    have hr : isCnt false f = false := by
-      unfold isRun at hrun; unfold isCnt; split at hrun <;> simp_all
-    have := h.failed
-    rw [hin, e4, e7]; simp only [hr] at *; simp at *; omega
-  · rw [e8, e9, e5]; exact h.ghost
-  · rw [hlost]; intro j hj
-    rcases mem_ins.mp hj with rfl | hj
-    · exact hp
-    · exact h.lostPanic j hj
-
 
 theorem setPc_eq (k : Nat) (pc : Pc) (l : List Fl) : setPc k pc l = updFl k (fun f => { f with pc := pc }) l := rfl
 
@@ -566,29 +458,25 @@ theorem running_pos {cfg : Cfg} {s : St} {k : Nat} {f : Fl} (h : Inv cfg s)
   simp only [hr] at *; simp at *; omega
 
 theorem inv_runOp {cfg : Cfg} {s : St} {f : Fl} (h : Inv cfg s)
-    (hf : findFl f.idx s.inflight = some f) (hr : isRun f = true) : Inv cfg (runOp cfg s f) := by
+    (hf : findFl f.idx s.inflight = some f) (hpc : f.pc = .go) : Inv cfg (runOp cfg s f) := by
   unfold runOp
   dsimp only
   split
-  · -- ok
-    refine inv_upd h hf (fun f => { f with pc := .done true }) (fun _ => rfl) _ (setPc_eq _ _ _)
-      ⟨rfl, rfl, rfl, rfl, rfl, rfl, rfl, rfl⟩ ?_ ?_ ?_ h.ghost
-    · simp only [hr]; simp [isRun]
-    · have : isCnt true f = false := by unfold isRun at hr; unfold isCnt; split at hr <;> simp_all
-      simp only [this]; simp [isCnt]
-    · have : isCnt false f = false := by unfold isRun at hr; unfold isCnt; split at hr <;> simp_all
-      simp only [this]; simp [isCnt]
-  · -- err
-    refine inv_upd h hf (fun g => { g with pc := .done false, wk := g.wk || (specOf cfg f.idx).custom })
-      (fun _ => rfl) _ rfl ⟨rfl, rfl, rfl, rfl, rfl, rfl, rfl, rfl⟩ ?_ ?_ ?_ h.ghost
-    · simp only [hr]; simp [isRun]
-    · have : isCnt true f = false := by unfold isRun at hr; unfold isCnt; split at hr <;> simp_all
-      simp only [this]; simp [isCnt]
-    · have : isCnt false f = false := by unfold isRun at hr; unfold isCnt; split at hr <;> simp_all
-      simp only [this]; simp [isCnt]
-  · -- panic
-    rename_i hp
-    exact inv_panic h hf hr hp _ rfl rfl ⟨rfl, rfl, rfl, rfl, rfl, rfl, rfl, rfl, rfl, rfl, rfl, rfl⟩
+  · refine inv_upd h hf (fun f => { f with pc := .done true }) (fun _ => rfl) _ (setPc_eq _ _ _)
+      ⟨rfl, rfl, rfl, rfl, rfl, rfl⟩ ?_ ?_ ?_ h.ghost
+    · simp [isRun, hpc]
+    · simp [isCnt, hpc]
+    · simp [isCnt, hpc]
+  · refine inv_upd h hf (fun g => { g with pc := .fst, wk := g.wk || (specOf cfg f.idx).custom })
+      (fun _ => rfl) _ rfl ⟨rfl, rfl, rfl, rfl, rfl, rfl⟩ ?_ ?_ ?_ h.ghost
+    · simp [isRun, hpc]
+    · simp [isCnt, hpc]
+    · simp [isCnt, hpc]
+  · refine inv_upd h hf (fun f => { f with pc := .fst }) (fun _ => rfl) _ (setPc_eq _ _ _)
+      ⟨rfl, rfl, rfl, rfl, rfl, rfl⟩ ?_ ?_ ?_ h.ghost
+    · simp [isRun, hpc]
+    · simp [isCnt, hpc]
+    · simp [isCnt, hpc]
 
 theorem inv_step_w {cfg : Cfg} {s s' : St} {k : Nat} (h : Inv cfg s) (hs : step cfg s (.w k) = some s') :
     Inv cfg s' := by
@@ -604,34 +492,49 @@ theorem inv_step_w {cfg : Cfg} {s s' : St} {k : Nat} (h : Inv cfg s) (hs : step 
     split
     · -- got
       rename_i hpc
-      refine inv_upd h hf (fun g => { g with pc := .started, lateC := s.cancelled, lateF := decide (0 < s.failed) })
-        (fun _ => rfl) _ rfl ⟨rfl, rfl, rfl, rfl, rfl, rfl, rfl, rfl⟩ ?_ ?_ ?_ ?_
+      refine inv_upd h hf
+        (fun g => { g with pc := (if s.cancelled then Pc.canc else Pc.start), lateC := s.cancelled, lateF := decide (0 < s.failBegun) })
+        (fun _ => rfl) _ rfl ⟨rfl, rfl, rfl, rfl, rfl, rfl⟩ ?_ ?_ ?_ h.ghost
+      · cases s.cancelled <;> simp [isRun, hpc]
+      · cases s.cancelled <;> simp [isCnt, hpc]
+      · cases s.cancelled <;> simp [isCnt, hpc]
+    · -- canc
+      rename_i hpc
+      unfold release
+      split
+      · refine inv_send (kd := .cancelled) h hf ?_ ?_ ?_ _ rfl rfl ?_ ⟨rfl, rfl, rfl, rfl, rfl, rfl, rfl, rfl⟩
+        · simp [isRun, hpc]
+        · rw [isCnt, hpc]; decide
+        · rw [isCnt, hpc]; decide
+        · dsimp only; omega
+      · refine inv_send (kd := .cancelled) h hf ?_ ?_ ?_ _ rfl rfl ?_ ⟨rfl, rfl, rfl, rfl, rfl, rfl, rfl, rfl⟩
+        · simp [isRun, hpc]
+        · rw [isCnt, hpc]; decide
+        · rw [isCnt, hpc]; decide
+        · dsimp only; omega
+    · -- start
+      rename_i hpc
+      refine inv_upd h hf (fun g => { g with pc := .go }) (fun _ => rfl) _ (setPc_eq _ _ _)
+        ⟨rfl, rfl, rfl, rfl, rfl, rfl⟩ ?_ ?_ ?_ ?_
       · simp [isRun, hpc]
       · simp [isCnt, hpc]
       · simp [isCnt, hpc]
       · have := h.ghost; dsimp only; omega
-    · -- started
-      rename_i hpc
-      have hr : isRun f = true := by simp [isRun, hpc]
-      split
-      · split
-        · refine inv_upd h hf (fun g => { g with pc := .done false }) (fun _ => rfl) _ (setPc_eq _ _ _) ⟨rfl, rfl, rfl, rfl, rfl, rfl, rfl, rfl⟩ ?_ ?_ ?_ h.ghost
-          · simp [isRun, hpc]
-          · simp [isCnt, hpc]
-          · simp [isCnt, hpc]
-        · refine inv_upd h hf (fun g => { g with pc := .go }) (fun _ => rfl) _ (setPc_eq _ _ _) ⟨rfl, rfl, rfl, rfl, rfl, rfl, rfl, rfl⟩ ?_ ?_ ?_ h.ghost
-          · simp [isRun, hpc]
-          · simp [isCnt, hpc]
-          · simp [isCnt, hpc]
-      · exact inv_runOp h hf hr
     · -- go
       rename_i hpc
-      exact inv_runOp h hf (by simp [isRun, hpc])
+      exact inv_runOp h hf hpc
+    · -- fst
+      rename_i hpc
+      refine inv_upd h hf (fun g => { g with pc := .done false }) (fun _ => rfl) _ (setPc_eq _ _ _)
+        ⟨rfl, rfl, rfl, rfl, rfl, rfl⟩ ?_ ?_ ?_ h.ghost
+      · simp [isRun, hpc]
+      · simp [isCnt, hpc]
+      · simp [isCnt, hpc]
     · -- done r
       rename_i r hpc
       have hr : isRun f = true := by simp [isRun, hpc]
       have hpos := running_pos h hf hr
-      refine inv_upd h hf (fun g => { g with pc := .dec r }) (fun _ => rfl) _ (setPc_eq _ _ _) ⟨rfl, rfl, rfl, rfl, rfl, rfl, rfl, rfl⟩ ?_ ?_ ?_ ?_
+      refine inv_upd h hf (fun g => { g with pc := .dec r }) (fun _ => rfl) _ (setPc_eq _ _ _) ⟨rfl, rfl, rfl, rfl, rfl, rfl⟩ ?_ ?_ ?_ ?_
       · simp [isRun, hpc]; omega
       · simp [isCnt, hpc]
       · simp [isCnt, hpc]
@@ -640,26 +543,29 @@ theorem inv_step_w {cfg : Cfg} {s s' : St} {k : Nat} (h : Inv cfg s) (hs : step 
       rename_i r hpc
       cases r
       · simp only [Bool.false_eq_true, ↓reduceIte]
-        refine inv_upd h hf (fun g => { g with pc := .cnt false }) (fun _ => rfl) _ (setPc_eq _ _ _) ⟨rfl, rfl, rfl, rfl, rfl, rfl, rfl, rfl⟩ ?_ ?_ ?_ h.ghost
+        refine inv_upd h hf (fun g => { g with pc := .cnt false }) (fun _ => rfl) _ (setPc_eq _ _ _) ⟨rfl, rfl, rfl, rfl, rfl, rfl⟩ ?_ ?_ ?_ h.ghost
         · simp [isRun, hpc]
         · simp [isCnt, hpc]
         · simp [isCnt, hpc]
       · simp only [↓reduceIte]
-        refine inv_upd h hf (fun g => { g with pc := .cnt true }) (fun _ => rfl) _ (setPc_eq _ _ _) ⟨rfl, rfl, rfl, rfl, rfl, rfl, rfl, rfl⟩ ?_ ?_ ?_ h.ghost
+        refine inv_upd h hf (fun g => { g with pc := .cnt true }) (fun _ => rfl) _ (setPc_eq _ _ _) ⟨rfl, rfl, rfl, rfl, rfl, rfl⟩ ?_ ?_ ?_ h.ghost
         · simp [isRun, hpc]
         · simp [isCnt, hpc]
         · simp [isCnt, hpc]
     · -- cnt r
       rename_i r hpc
+      unfold release
       split
-      · refine inv_send h hf hpc _ rfl rfl ?_ ⟨rfl, rfl, rfl, rfl, rfl, rfl, rfl, rfl, rfl⟩
-        simp only [List.length_append, List.length_cons, List.length_nil]; omega
-      · unfold release
-        split
-        · refine inv_send h hf hpc _ rfl rfl ?_ ⟨rfl, rfl, rfl, rfl, rfl, rfl, rfl, rfl, rfl⟩
-          dsimp only; omega
-        · refine inv_send h hf hpc _ rfl rfl ?_ ⟨rfl, rfl, rfl, rfl, rfl, rfl, rfl, rfl, rfl⟩
-          dsimp only; omega
+      · refine inv_send (kd := kindOf r) h hf ?_ ?_ ?_ _ rfl rfl ?_ ⟨rfl, rfl, rfl, rfl, rfl, rfl, rfl, rfl⟩
+        · simp [isRun, hpc]
+        · rw [isCnt, hpc]; cases r <;> decide
+        · rw [isCnt, hpc]; cases r <;> decide
+        · dsimp only; omega
+      · refine inv_send (kd := kindOf r) h hf ?_ ?_ ?_ _ rfl rfl ?_ ⟨rfl, rfl, rfl, rfl, rfl, rfl, rfl, rfl⟩
+        · simp [isRun, hpc]
+        · rw [isCnt, hpc]; cases r <;> decide
+        · rw [isCnt, hpc]; cases r <;> decide
+        · dsimp only; omega
 
 theorem inv_step {cfg : Cfg} {s s' : St} {a : Act} (h : Inv cfg s) (hs : step cfg s a = some s') : Inv cfg s' := by
   cases a with
@@ -669,7 +575,6 @@ theorem inv_step {cfg : Cfg} {s s' : St} {a : Act} (h : Inv cfg s) (hs : step cf
   | dSendC => exact inv_step_disp h hs (by intro k; simp) (by intro b; simp)
   | dEnq => exact inv_step_disp h hs (by intro k; simp) (by intro b; simp)
   | dClose => exact inv_step_disp h hs (by intro k; simp) (by intro b; simp)
-  | store k => exact inv_step_disp h hs (by intro k; simp) (by intro b; simp)
   | extCancel => exact inv_step_disp h hs (by intro k; simp) (by intro b; simp)
   | monExit => exact inv_step_disp h hs (by intro k; simp) (by intro b; simp)
 
@@ -679,7 +584,7 @@ theorem inv_reachable {cfg : Cfg} {s : St} (h : Reachable cfg s) : Inv cfg s := 
   | step _ hs ih => exact inv_step ih hs
 
 
-/-! ### custom jobs and the cancel flag -/
+/-! ### cancellation: who may run after the flag was set / after a failure was recorded -/
 
 
 theorem unique_entry {l : List Fl} {k : Nat} {f y : Fl} (hu : (idxs l).count k = 1)
@@ -716,128 +621,474 @@ theorem mem_updFl {k : Nat} {g : Fl → Fl} {l : List Fl} {x : Fl} (h : x ∈ up
 theorem mem_dropFl {k : Nat} {l : List Fl} {x : Fl} (h : x ∈ dropFl k l) : x ∈ l :=
   (List.mem_filter.mp h).1
 
-/-- a custom job that called `start_job` when the flag was already set will not enter its operation -/
-structure InvC (cfg : Cfg) (s : St) : Prop where
-  entry : ∀ f ∈ s.inflight, f.lateC = true → (specOf cfg f.idx).custom = true →
-    f.pc ≠ .go ∧ (f.pc = .started → s.cancelled = true)
-  log : ∀ j ∈ s.ranLateC, (specOf cfg j).custom = false
+/-- what must hold of one job in flight, given the current value `c` of the cancel flag -/
+structure EntryOK (cfg : Cfg) (c : Bool) (f : Fl) : Prop where
+  /-- about to report `Cancelled`: the flag is set -/
+  canc : f.pc = .canc → c = true
+  /-- saw the flag set at its first statement: will only report `Cancelled` -/
+  lateC : f.lateC = true → f.pc = .canc
+  /-- stop_on_error: about to enter `fail_job()`: the flag is already set -/
+  fail : cfg.soe = true → f.pc = .done false → c = true
+  /-- stop_on_error: started after a failure was recorded: will only report `Cancelled` -/
+  lateF : cfg.soe = true → f.lateF = true → f.pc = .canc
 
-theorem invC_init (cfg : Cfg) : InvC cfg (init cfg) := by
+theorem EntryOK.mono {cfg : Cfg} {c c' : Bool} {f : Fl} (h : EntryOK cfg c f) (hm : c = true → c' = true) :
+    EntryOK cfg c' f :=
+  ⟨fun hp => hm (h.canc hp), h.lateC, fun hs hp => hm (h.fail hs hp), h.lateF⟩
+
+structure InvS (cfg : Cfg) (s : St) : Prop where
+  entries : ∀ f ∈ s.inflight, EntryOK cfg s.cancelled f
+  /-- a `Cancelled` result is only ever sent with the flag set -/
+  cancMsg : ∀ m ∈ s.sent, m.2 = .cancelled → s.cancelled = true
+  sendC : s.dpc = .sendC → s.cancelled = true
+  /-- stop_on_error: once some job has entered `fail_job()` the flag is set -/
+  failBegun : cfg.soe = true → 0 < s.failBegun → s.cancelled = true
+  logC : s.ranLateC = []
+  logF : cfg.soe = true → s.ranLateF = []
+
+theorem invS_init (cfg : Cfg) : InvS cfg (init cfg) := by
   constructor <;> simp [init]
 
-
-theorem invC_frame {cfg : Cfg} {s s' : St} (hC : InvC cfg s) (hin : s'.inflight = s.inflight)
-    (hlog : s'.ranLateC = s.ranLateC) (hmono : s.cancelled = true → s'.cancelled = true) : InvC cfg s' := by
+/-- steps that leave the in-flight list, the message log, the ghost counter and the logs alone -/
+theorem invS_frame {cfg : Cfg} {s s' : St} (hS : InvS cfg s) (hin : s'.inflight = s.inflight)
+    (hsent : s'.sent = s.sent) (hfb : s'.failBegun = s.failBegun) (hlc : s'.ranLateC = s.ranLateC)
+    (hlf : s'.ranLateF = s.ranLateF) (hmono : s.cancelled = true → s'.cancelled = true)
+    (hd : s'.dpc = .sendC → s'.cancelled = true) : InvS cfg s' := by
   constructor
-  · intro f hf hl hc
-    rw [hin] at hf
-    obtain ⟨h1, h2⟩ := hC.entry f hf hl hc
-    exact ⟨h1, fun hp => hmono (h2 hp)⟩
-  · rw [hlog]; exact hC.log
+  · intro f hf; rw [hin] at hf; exact (hS.entries f hf).mono hmono
+  · intro m hm hk; rw [hsent] at hm; exact hmono (hS.cancMsg m hm hk)
+  · exact hd
+  · intro hs hp; rw [hfb] at hp; exact hmono (hS.failBegun hs hp)
+  · rw [hlc]; exact hS.logC
+  · intro hs; rw [hlf]; exact hS.logF hs
 
-theorem invC_upd {cfg : Cfg} {s s' : St} {k : Nat} {f : Fl} (hI : Inv cfg s) (hC : InvC cfg s)
+/-- one in-flight entry changes -/
+theorem invS_upd {cfg : Cfg} {s s' : St} {k : Nat} {f : Fl} (hI : Inv cfg s) (hS : InvS cfg s)
     (hf : findFl k s.inflight = some f) (g : Fl → Fl)
-    (hin : s'.inflight = updFl k g s.inflight)
-    (hlog : ∀ j ∈ s'.ranLateC, (specOf cfg j).custom = false)
+    (hin : s'.inflight = updFl k g s.inflight) (hsent : s'.sent = s.sent) (hdpc : s'.dpc = s.dpc)
     (hmono : s.cancelled = true → s'.cancelled = true)
-    (hg : (g f).lateC = true → (specOf cfg (g f).idx).custom = true →
-      (g f).pc ≠ .go ∧ ((g f).pc = .started → s'.cancelled = true)) : InvC cfg s' := by
+    (hfb : cfg.soe = true → 0 < s'.failBegun → s'.cancelled = true)
+    (hlc : s'.ranLateC = []) (hlf : cfg.soe = true → s'.ranLateF = [])
+    (hg : EntryOK cfg s'.cancelled (g f)) : InvS cfg s' := by
   obtain ⟨_, hu, _⟩ := entry_facts hI hf
   constructor
-  · intro x hx hl hc
+  · intro x hx
     rw [hin] at hx
     rcases mem_updFl hx with ⟨hx1, _⟩ | ⟨y, hy, hyk, rfl⟩
-    · obtain ⟨h1, h2⟩ := hC.entry x hx1 hl hc
-      exact ⟨h1, fun hp => hmono (h2 hp)⟩
+    · exact (hS.entries x hx1).mono hmono
     · have := unique_entry hu hf hy hyk
       subst this
-      exact hg hl hc
-  · exact hlog
+      exact hg
+  · intro m hm hk; rw [hsent] at hm; exact hmono (hS.cancMsg m hm hk)
+  · intro hd; rw [hdpc] at hd; exact hmono (hS.sendC hd)
+  · exact hfb
+  · exact hlc
+  · exact hlf
 
-theorem invC_drop {cfg : Cfg} {s s' : St} {k : Nat} (hC : InvC cfg s)
-    (hin : s'.inflight = dropFl k s.inflight)
-    (hlog : ∀ j ∈ s'.ranLateC, (specOf cfg j).custom = false)
-    (hmono : s.cancelled = true → s'.cancelled = true) : InvC cfg s' := by
+/-- a job leaves the in-flight list with one message -/
+theorem invS_send {cfg : Cfg} {s s' : St} {k : Nat} {kd : Kind} (hS : InvS cfg s)
+    (hin : s'.inflight = dropFl k s.inflight) (hsent : s'.sent = insSent (k, kd) s.sent)
+    (hdpc : s'.dpc = s.dpc) (hc : s'.cancelled = s.cancelled) (hfb : s'.failBegun = s.failBegun)
+    (hlc : s'.ranLateC = s.ranLateC) (hlf : s'.ranLateF = s.ranLateF)
+    (hk : kd = .cancelled → s.cancelled = true) : InvS cfg s' := by
   constructor
-  · intro x hx hl hc
-    rw [hin] at hx
-    obtain ⟨h1, h2⟩ := hC.entry x (mem_dropFl hx) hl hc
-    exact ⟨h1, fun hp => hmono (h2 hp)⟩
-  · exact hlog
+  · intro x hx; rw [hin] at hx; rw [hc]; exact hS.entries x (mem_dropFl hx)
+  · intro m hm hkd
+    rw [hsent] at hm; rw [hc]
+    rcases mem_insSent.mp hm with rfl | hm
+    · exact hk hkd
+    · exact hS.cancMsg m hm hkd
+  · intro hd; rw [hdpc] at hd; rw [hc]; exact hS.sendC hd
+  · intro hs hp; rw [hfb] at hp; rw [hc]; exact hS.failBegun hs hp
+  · rw [hlc]; exact hS.logC
+  · intro hs; rw [hlf]; exact hS.logF hs
 
-theorem invC_runOp {cfg : Cfg} {s : St} {f : Fl} (hI : Inv cfg s) (hC : InvC cfg s)
-    (hf : findFl f.idx s.inflight = some f)
-    (hlate : f.lateC = true → (specOf cfg f.idx).custom = false) : InvC cfg (runOp cfg s f) := by
-  have hlog : ∀ j ∈ (if f.lateC = true then ins f.idx s.ranLateC else s.ranLateC), (specOf cfg j).custom = false := by
-    intro j hj
-    split at hj
-    · rename_i hl
-      rcases mem_ins.mp hj with rfl | hj
-      · exact hlate hl
-      · exact hC.log j hj
-    · exact hC.log j hj
+theorem invS_runOp {cfg : Cfg} {s : St} {f : Fl} (hI : Inv cfg s) (hS : InvS cfg s)
+    (hf : findFl f.idx s.inflight = some f) (hpc : f.pc = .go) : InvS cfg (runOp cfg s f) := by
+  have hmem := (findFl_some hf).2
+  have he := hS.entries f hmem
+  have hlc : f.lateC = false := by
+    cases h : f.lateC with
+    | false => rfl
+    | true => have := he.lateC h; rw [hpc] at this; cases this
+  have hlf : cfg.soe = true → f.lateF = false := by
+    intro hs
+    cases h : f.lateF with
+    | false => rfl
+    | true => have := he.lateF hs h; rw [hpc] at this; cases this
   have hmono : s.cancelled = true → (s.cancelled || (specOf cfg f.idx).cancels) = true := by
     intro h; simp [h]
+  have hfb : cfg.soe = true → 0 < s.failBegun → (s.cancelled || (specOf cfg f.idx).cancels) = true :=
+    fun hs hp => hmono (hS.failBegun hs hp)
+  have hlogC : (if f.lateC = true then ins f.idx s.ranLateC else s.ranLateC) = [] := by
+    rw [hlc]; simpa using hS.logC
+  have hlogF : cfg.soe = true → (if f.lateF = true then ins f.idx s.ranLateF else s.ranLateF) = [] := by
+    intro hs; rw [hlf hs]; simpa using hS.logF hs
   unfold runOp
   dsimp only
   split
-  · exact invC_upd hI hC hf (fun g => { g with pc := .done true }) (setPc_eq _ _ _) hlog hmono
-      (by intro _ _; simp)
-  · exact invC_upd hI hC hf (fun g => { g with pc := .done false, wk := g.wk || (specOf cfg f.idx).custom })
-      rfl hlog hmono (by intro _ _; simp)
-  · exact invC_drop hC rfl hlog hmono
+  · refine invS_upd hI hS hf (fun g => { g with pc := .done true }) (setPc_eq _ _ _) rfl rfl hmono hfb hlogC hlogF ?_
+    constructor
+    · intro h; cases h
+    · intro h; dsimp only at h; rw [hlc] at h; cases h
+    · intro _ h; cases h
+    · intro hs h; dsimp only at h; rw [hlf hs] at h; cases h
+  · refine invS_upd hI hS hf (fun g => { g with pc := .fst, wk := g.wk || (specOf cfg f.idx).custom })
+      rfl rfl rfl hmono hfb hlogC hlogF ?_
+    constructor
+    · intro h; cases h
+    · intro h; dsimp only at h; rw [hlc] at h; cases h
+    · intro _ h; cases h
+    · intro hs h; dsimp only at h; rw [hlf hs] at h; cases h
+  · refine invS_upd hI hS hf (fun g => { g with pc := .fst }) (setPc_eq _ _ _) rfl rfl hmono hfb hlogC hlogF ?_
+    constructor
+    · intro h; cases h
+    · intro h; dsimp only at h; rw [hlc] at h; cases h
+    · intro _ h; cases h
+    · intro hs h; dsimp only at h; rw [hlf hs] at h; cases h
 
-theorem invC_step {cfg : Cfg} {s s' : St} {a : Act} (hI : Inv cfg s) (hC : InvC cfg s)
-    (hs : step cfg s a = some s') : InvC cfg s' := by
+theorem invS_step {cfg : Cfg} {s s' : St} {a : Act} (hI : Inv cfg s) (hS : InvS cfg s)
+    (hs : step cfg s a = some s') : InvS cfg s' := by
   cases a with
   | dLoad =>
     simp only [step] at hs; split at hs
-    · cases hs; exact invC_frame hC rfl rfl id
+    · cases hs
+      refine invS_frame hS rfl rfl rfl rfl rfl id ?_
+      dsimp only
+      cases s.cancelled <;> simp
     · cases hs
   | dClose =>
     simp only [step] at hs; split at hs
-    · cases hs; exact invC_frame hC rfl rfl id
+    · cases hs; exact invS_frame hS rfl rfl rfl rfl rfl id (by intro h; cases h)
     · cases hs
   | dSendC =>
     simp only [step] at hs; split at hs
-    · cases hs; exact invC_frame hC rfl rfl id
+    · rename_i hd
+      cases hs
+      constructor
+      · exact hS.entries
+      · intro m hm hk
+        rcases mem_insSent.mp hm with rfl | hm
+        · exact hS.sendC hd
+        · exact hS.cancMsg m hm hk
+      · intro h; cases h
+      · exact hS.failBegun
+      · exact hS.logC
+      · exact hS.logF
     · cases hs
   | dEnq =>
     simp only [step] at hs; split at hs
     · split at hs
-      · cases hs; exact invC_frame hC rfl rfl id
-      · cases hs; exact invC_frame hC rfl rfl id
+      · cases hs; exact invS_frame hS rfl rfl rfl rfl rfl id (by intro h; cases h)
+      · cases hs; exact invS_frame hS rfl rfl rfl rfl rfl id (by intro h; cases h)
     · cases hs
   | extCancel =>
     simp only [step] at hs; split at hs
-    · cases hs; exact invC_frame hC rfl rfl (fun _ => rfl)
+    · cases hs; exact invS_frame hS rfl rfl rfl rfl rfl (fun _ => rfl) (fun _ => rfl)
     · cases hs
   | monExit =>
     simp only [step] at hs; split at hs
-    · cases hs; exact invC_frame hC rfl rfl id
+    · cases hs; exact invS_frame hS rfl rfl rfl rfl rfl id hS.sendC
     · cases hs
-  | store k =>
-    simp only [step] at hs; split at hs
-    · cases hs
-    · cases hs
-      unfold release
-      split
-      · exact invC_frame hC rfl rfl (fun _ => rfl)
-      · exact invC_frame hC rfl rfl (fun _ => rfl)
   | deq b =>
     simp only [step] at hs
     split at hs
     · cases hs
     · rename_i k q hq
-      have key : ∀ (iK iN : Nat) (fl : Fl), fl.lateC = false →
-          InvC cfg { s with queue := q, idleK := iK, idleN := iN, inflight := s.inflight ++ [fl] } := by
-        intro iK iN fl hfl
+      have key : ∀ (iK iN : Nat) (fl : Fl), fl.pc = .got → fl.lateC = false → fl.lateF = false →
+          InvS cfg { s with queue := q, idleK := iK, idleN := iN, inflight := s.inflight ++ [fl] } := by
+        intro iK iN fl h1 h2 h3
         constructor
-        · intro x hx hl hc
+        · intro x hx
           rcases List.mem_append.mp hx with hx | hx
-          · exact hC.entry x hx hl hc
-          · simp at hx; subst hx; rw [hfl] at hl; cases hl
-        · exact hC.log
+          · exact hS.entries x hx
+          · simp at hx; subst hx
+            constructor
+            · intro h; rw [h1] at h; cases h
+            · intro h; rw [h2] at h; cases h
+            · intro _ h; rw [h1] at h; cases h
+            · intro _ h; rw [h3] at h; cases h
+        · exact hS.cancMsg
+        · exact hS.sendC
+        · exact hS.failBegun
+        · exact hS.logC
+        · exact hS.logF
+      cases b
+      · simp only [Bool.false_eq_true, ↓reduceIte] at hs
+        split at hs
+        · cases hs; exact key _ _ _ rfl rfl rfl
+        · cases hs
+      · simp only [↓reduceIte] at hs
+        split at hs
+        · cases hs; exact key _ _ _ rfl rfl rfl
+        · cases hs
+  | w k =>
+    simp only [step] at hs
+    split at hs
+    · cases hs
+    · rename_i f hf
+      cases hs
+      have hk := (findFl_some hf).1
+      subst hk
+      have hmem := (findFl_some hf).2
+      have he := hS.entries f hmem
+      unfold wstep
+      dsimp only
+      split
+      · -- got: the look at the flag
+        refine invS_upd hI hS hf
+          (fun g => { g with pc := (if s.cancelled then Pc.canc else Pc.start), lateC := s.cancelled, lateF := decide (0 < s.failBegun) })
+          rfl rfl rfl id hS.failBegun hS.logC hS.logF ?_
+        constructor
+        · dsimp only; cases s.cancelled <;> simp
+        · dsimp only; intro h; rw [h]; rfl
+        · dsimp only; intro _ h; split at h <;> cases h
+        · dsimp only
+          intro hs h
+          have hp : 0 < s.failBegun := by simpa using h
+          rw [hS.failBegun hs hp]; rfl
+      · -- canc
+        rename_i hpc
+        have hc := he.canc hpc
+        unfold release
+        split
+        · exact invS_send (kd := .cancelled) hS rfl rfl rfl rfl rfl rfl rfl (fun _ => hc)
+        · exact invS_send (kd := .cancelled) hS rfl rfl rfl rfl rfl rfl rfl (fun _ => hc)
+      · -- start
+        rename_i hpc
+        refine invS_upd hI hS hf (fun g => { g with pc := .go }) (setPc_eq _ _ _) rfl rfl id hS.failBegun hS.logC hS.logF ?_
+        constructor
+        · intro h; cases h
+        · intro h; have := he.lateC h; rw [hpc] at this; cases this
+        · intro _ h; cases h
+        · intro hs h; have := he.lateF hs h; rw [hpc] at this; cases this
+      · -- go
+        rename_i hpc
+        exact invS_runOp hI hS hf hpc
+      · -- fst: `if stop_on_error { cancelled.store(true) }`
+        rename_i hpc
+        have hmono : s.cancelled = true → (s.cancelled || cfg.soe) = true := by intro h; simp [h]
+        refine invS_upd hI hS hf (fun g => { g with pc := .done false }) (setPc_eq _ _ _) rfl rfl hmono
+          (fun hs hp => hmono (hS.failBegun hs hp)) hS.logC hS.logF ?_
+        constructor
+        · intro h; cases h
+        · intro h; have := he.lateC h; rw [hpc] at this; cases this
+        · intro hs _; dsimp only; simp [hs]
+        · intro hs h; have := he.lateF hs h; rw [hpc] at this; cases this
+      · -- done r
+        rename_i r hpc
+        refine invS_upd hI hS hf (fun g => { g with pc := .dec r }) (setPc_eq _ _ _) rfl rfl id ?_ hS.logC hS.logF ?_
+        · intro hs hp
+          dsimp only at hp ⊢
+          cases r
+          · exact he.fail hs hpc
+          · simp only [↓reduceIte] at hp; exact hS.failBegun hs hp
+        · constructor
+          · intro h; cases h
+          · intro h; have := he.lateC h; rw [hpc] at this; cases this
+          · intro _ h; cases h
+          · intro hs h; have := he.lateF hs h; rw [hpc] at this; cases this
+      · -- dec r
+        rename_i r hpc
+        cases r
+        · simp only [Bool.false_eq_true, ↓reduceIte]
+          refine invS_upd hI hS hf (fun g => { g with pc := .cnt false }) (setPc_eq _ _ _) rfl rfl id hS.failBegun hS.logC hS.logF ?_
+          constructor
+          · intro h; cases h
+          · intro h; have := he.lateC h; rw [hpc] at this; cases this
+          · intro _ h; cases h
+          · intro hs h; have := he.lateF hs h; rw [hpc] at this; cases this
+        · simp only [↓reduceIte]
+          refine invS_upd hI hS hf (fun g => { g with pc := .cnt true }) (setPc_eq _ _ _) rfl rfl id hS.failBegun hS.logC hS.logF ?_
+          constructor
+          · intro h; cases h
+          · intro h; have := he.lateC h; rw [hpc] at this; cases this
+          · intro _ h; cases h
+          · intro hs h; have := he.lateF hs h; rw [hpc] at this; cases this
+      · -- cnt r
+        rename_i r hpc
+        unfold release
+        split
+        · exact invS_send (kd := kindOf r) hS rfl rfl rfl rfl rfl rfl rfl (by cases r <;> simp [kindOf])
+        · exact invS_send (kd := kindOf r) hS rfl rfl rfl rfl rfl rfl rfl (by cases r <;> simp [kindOf])
+
+theorem invS_reachable {cfg : Cfg} {s : St} (h : Reachable cfg s) : InvS cfg s := by
+  induction h with
+  | init => exact invS_init cfg
+  | step hr hs ih => exact invS_step (inv_reachable hr) ih hs
+
+
+/-! ### termination: a measure that every action decreases -/
+
+
+def sumW (w : Fl → Nat) (l : List Fl) : Nat := (l.map w).sum
+
+theorem sumW_updFl (w : Fl → Nat) (k : Nat) (g : Fl → Fl) (l : List Fl) (f : Fl)
+    (hf : findFl k l = some f) (hu : (idxs l).count k = 1) :
+    sumW w (updFl k g l) + w f = sumW w l + w (g f) := by
+  induction l with
+  | nil => simp [findFl] at hf
+  | cons a l ih =>
+    by_cases ha : a.idx = k
+    · have hfa : f = a := by
+        simp [findFl, ha] at hf; exact hf.symm
+      subst hfa
+      have hl : (idxs l).count k = 0 := by
+        simp only [idxs, List.map_cons, List.count_cons, ha, beq_self_eq_true, ↓reduceIte] at hu
+        unfold idxs; omega
+      have e : updFl k g (f :: l) = g f :: l := by
+        have := updFl_of_count_zero k g l hl
+        simp only [updFl, List.map_cons, ha, beq_self_eq_true, ↓reduceIte] at this ⊢
+        rw [this]
+      rw [e]
+      simp only [sumW, List.map_cons, List.sum_cons]
+      omega
+    · have ha' : (a.idx == k) = false := by simpa using ha
+      have hf' : findFl k l = some f := by
+        simpa [findFl, List.find?_cons, ha'] using hf
+      have hu' : (idxs l).count k = 1 := by
+        simpa [idxs, List.count_cons, ha'] using hu
+      have := ih hf' hu'
+      have e : updFl k g (a :: l) = a :: updFl k g l := by
+        simp only [updFl, List.map_cons, ha', Bool.false_eq_true, ↓reduceIte]
+      rw [e]
+      simp only [sumW, List.map_cons, List.sum_cons] at this ⊢
+      omega
+
+theorem sumW_dropFl (w : Fl → Nat) (k : Nat) (l : List Fl) (f : Fl)
+    (hf : findFl k l = some f) (hu : (idxs l).count k = 1) :
+    sumW w (dropFl k l) + w f = sumW w l := by
+  induction l with
+  | nil => simp [findFl] at hf
+  | cons a l ih =>
+    by_cases ha : a.idx = k
+    · have hfa : f = a := by
+        simp [findFl, ha] at hf; exact hf.symm
+      subst hfa
+      have hl : (idxs l).count k = 0 := by
+        simp only [idxs, List.map_cons, List.count_cons, ha, beq_self_eq_true, ↓reduceIte] at hu
+        unfold idxs; omega
+      have e : dropFl k (f :: l) = l := by
+        have := dropFl_of_count_zero k l hl
+        simp only [dropFl, List.filter_cons, ha, beq_self_eq_true, Bool.not_true, Bool.false_eq_true,
+          ↓reduceIte] at this ⊢
+        exact this
+      rw [e]
+      simp only [sumW, List.map_cons, List.sum_cons]
+      omega
+    · have ha' : (a.idx == k) = false := by simpa using ha
+      have hf' : findFl k l = some f := by
+        simpa [findFl, List.find?_cons, ha'] using hf
+      have hu' : (idxs l).count k = 1 := by
+        simpa [idxs, List.count_cons, ha'] using hu
+      have := ih hf' hu'
+      have e : dropFl k (a :: l) = a :: dropFl k l := by
+        simp [dropFl, ha']
+      rw [e]
+      simp only [sumW, List.map_cons, List.sum_cons] at this ⊢
+      omega
+
+/-- statements a job in flight still has to execute -/
+def rem : Pc → Nat
+  | .got => 7 | .canc => 1 | .start => 6 | .go => 5 | .fst => 4 | .done _ => 3 | .dec _ => 2 | .cnt _ => 1
+
+/-- statements the dispatcher (and, for the jobs it will still hand out, their workers) has left -/
+def dispM (cfg : Cfg) (s : St) : Nat :=
+  match s.dpc with
+  | .top => 10 * (cfg.jobs.length - s.dnext) + 1
+  | .sendC => 10 * (cfg.jobs.length - s.dnext)
+  | .enq => 10 * (cfg.jobs.length - s.dnext)
+  | .closed => 0
+
+/-- an upper bound on the number of actions that can still happen -/
+def measure (cfg : Cfg) (s : St) : Nat :=
+  (if cfg.ext = true ∧ s.extDone = false then 1 else 0) + (if s.mon = true then 1 else 0) + dispM cfg s
+    + 8 * s.queue.length + sumW (fun f => rem f.pc) s.inflight
+
+theorem meas_upd {cfg : Cfg} {s s' : St} {k : Nat} {f : Fl} (h : Inv cfg s)
+    (hf : findFl k s.inflight = some f) (g : Fl → Fl)
+    (hin : s'.inflight = updFl k g s.inflight)
+    (hcore : s'.dnext = s.dnext ∧ s'.dpc = s.dpc ∧ s'.queue = s.queue ∧ s'.mon = s.mon ∧ s'.extDone = s.extDone)
+    (hlt : rem (g f).pc < rem f.pc) : measure cfg s' < measure cfg s := by
+  obtain ⟨e1, e2, e3, e4, e5⟩ := hcore
+  obtain ⟨_, hu, _⟩ := entry_facts h hf
+  have := sumW_updFl (fun f => rem f.pc) k g s.inflight f hf hu
+  simp only [measure, dispM, hin, e1, e2, e3, e4, e5] at this ⊢
+  omega
+
+theorem meas_drop {cfg : Cfg} {s s' : St} {k : Nat} {f : Fl} (h : Inv cfg s)
+    (hf : findFl k s.inflight = some f)
+    (hin : s'.inflight = dropFl k s.inflight)
+    (hcore : s'.dnext = s.dnext ∧ s'.dpc = s.dpc ∧ s'.queue = s.queue ∧ s'.mon = s.mon ∧ s'.extDone = s.extDone)
+    (hpos : 0 < rem f.pc) : measure cfg s' < measure cfg s := by
+  obtain ⟨e1, e2, e3, e4, e5⟩ := hcore
+  obtain ⟨_, hu, _⟩ := entry_facts h hf
+  have := sumW_dropFl (fun f => rem f.pc) k s.inflight f hf hu
+  simp only [measure, dispM, hin, e1, e2, e3, e4, e5] at this ⊢
+  omega
+
+theorem meas_step {cfg : Cfg} {s s' : St} {a : Act} (h : Inv cfg s) (hs : step cfg s a = some s') :
+    measure cfg s' < measure cfg s := by
+  cases a with
+  | dLoad =>
+    simp only [step] at hs; split at hs
+    · rename_i hc
+      cases hs
+      simp only [measure, dispM, hc.1]
+      cases s.cancelled <;> simp <;> omega
+    · cases hs
+  | dClose =>
+    simp only [step] at hs; split at hs
+    · rename_i hc
+      cases hs
+      simp only [measure, dispM, hc.1]
+      omega
+    · cases hs
+  | dSendC =>
+    simp only [step] at hs; split at hs
+    · rename_i hc
+      have := h.dnext_lt (Or.inl hc)
+      cases hs
+      simp only [measure, dispM, hc]
+      omega
+    · cases hs
+  | dEnq =>
+    simp only [step] at hs; split at hs
+    · rename_i hc
+      have := h.dnext_lt (Or.inr hc)
+      split at hs
+      · cases hs
+        simp only [measure, dispM, hc]
+        omega
+      · cases hs
+        simp only [measure, dispM, hc, List.length_append, List.length_cons, List.length_nil]
+        omega
+    · cases hs
+  | extCancel =>
+    simp only [step] at hs; split at hs
+    · rename_i hc
+      cases hs
+      simp only [measure, dispM, hc.1, hc.2]
+      simp
+    · cases hs
+  | monExit =>
+    simp only [step] at hs; split at hs
+    · rename_i hc
+      cases hs
+      simp only [measure, dispM, hc.1]
+      simp
+    · cases hs
+  | deq b =>
+    simp only [step] at hs
+    split at hs
+    · cases hs
+    · rename_i k q hq
+      have key : ∀ (iK iN : Nat) (fl : Fl), fl.pc = .got →
+          measure cfg { s with queue := q, idleK := iK, idleN := iN, inflight := s.inflight ++ [fl] } < measure cfg s := by
+        intro iK iN fl hp
+        simp only [measure, dispM, hq, sumW, List.map_append, List.sum_append, List.map_cons, List.map_nil,
+          List.sum_cons, List.sum_nil, List.length_cons, hp, rem]
+        omega
       cases b
       · simp only [Bool.false_eq_true, ↓reduceIte] at hs
         split at hs
@@ -855,50 +1106,50 @@ theorem invC_step {cfg : Cfg} {s s' : St} {a : Act} (hI : Inv cfg s) (hC : InvC 
       cases hs
       have hk := (findFl_some hf).1
       subst hk
-      have hmem := (findFl_some hf).2
       unfold wstep
       dsimp only
       split
-      · -- got
-        exact invC_upd hI hC hf (fun g => { g with pc := .started, lateC := s.cancelled, lateF := decide (0 < s.failed) })
-          rfl hC.log id (by intro hl _; simp at hl ⊢; exact hl)
-      · -- started
-        rename_i hpc
+      · rename_i hpc
+        refine meas_upd h hf
+          (fun g => { g with pc := (if s.cancelled then Pc.canc else Pc.start), lateC := s.cancelled, lateF := decide (0 < s.failBegun) })
+          rfl ⟨rfl, rfl, rfl, rfl, rfl⟩ ?_
+        rw [hpc]; dsimp only; cases s.cancelled <;> simp [rem]
+      · rename_i hpc
+        unfold release
         split
-        · rename_i hcust
-          split
-          · exact invC_upd hI hC hf (fun g => { g with pc := .done false }) (setPc_eq _ _ _) hC.log id
-              (by intro _ _; simp)
-          · rename_i hnc
-            refine invC_upd hI hC hf (fun g => { g with pc := .go }) (setPc_eq _ _ _) hC.log id ?_
-            intro hl hc
-            exact absurd ((hC.entry f hmem hl hc).2 hpc) hnc
-        · rename_i hcust
-          exact invC_runOp hI hC hf (fun _ => by simpa using hcust)
-      · -- go
-        rename_i hpc
-        refine invC_runOp hI hC hf ?_
-        intro hl
-        cases hc : (specOf cfg f.idx).custom with
-        | false => rfl
-        | true => exact absurd hpc (hC.entry f hmem hl hc).1
-      · exact invC_upd hI hC hf (fun g => { g with pc := .dec _ }) (setPc_eq _ _ _) hC.log id (by intro _ _; simp)
+        · exact meas_drop h hf rfl ⟨rfl, rfl, rfl, rfl, rfl⟩ (by rw [hpc]; simp [rem])
+        · exact meas_drop h hf rfl ⟨rfl, rfl, rfl, rfl, rfl⟩ (by rw [hpc]; simp [rem])
+      · rename_i hpc
+        exact meas_upd h hf (fun g => { g with pc := .go }) (setPc_eq _ _ _) ⟨rfl, rfl, rfl, rfl, rfl⟩
+          (by rw [hpc]; simp [rem])
+      · rename_i hpc
+        unfold runOp
+        dsimp only
+        split
+        · exact meas_upd h hf (fun g => { g with pc := .done true }) (setPc_eq _ _ _) ⟨rfl, rfl, rfl, rfl, rfl⟩
+            (by rw [hpc]; simp [rem])
+        · exact meas_upd h hf (fun g => { g with pc := .fst, wk := g.wk || (specOf cfg f.idx).custom }) rfl
+            ⟨rfl, rfl, rfl, rfl, rfl⟩ (by rw [hpc]; simp [rem])
+        · exact meas_upd h hf (fun g => { g with pc := .fst }) (setPc_eq _ _ _) ⟨rfl, rfl, rfl, rfl, rfl⟩
+            (by rw [hpc]; simp [rem])
+      · rename_i hpc
+        exact meas_upd h hf (fun g => { g with pc := .done false }) (setPc_eq _ _ _) ⟨rfl, rfl, rfl, rfl, rfl⟩
+          (by rw [hpc]; simp [rem])
+      · rename_i r hpc
+        exact meas_upd h hf (fun g => { g with pc := .dec r }) (setPc_eq _ _ _) ⟨rfl, rfl, rfl, rfl, rfl⟩
+          (by rw [hpc]; simp [rem])
       · rename_i r hpc
         cases r
         · simp only [Bool.false_eq_true, ↓reduceIte]
-          exact invC_upd hI hC hf (fun g => { g with pc := .cnt false }) (setPc_eq _ _ _) hC.log id (by intro _ _; simp)
+          exact meas_upd h hf (fun g => { g with pc := .cnt false }) (setPc_eq _ _ _) ⟨rfl, rfl, rfl, rfl, rfl⟩
+            (by rw [hpc]; simp [rem])
         · simp only [↓reduceIte]
-          exact invC_upd hI hC hf (fun g => { g with pc := .cnt true }) (setPc_eq _ _ _) hC.log id (by intro _ _; simp)
-      · split
-        · exact invC_drop hC rfl hC.log id
-        · unfold release
-          split
-          · exact invC_drop hC rfl hC.log id
-          · exact invC_drop hC rfl hC.log id
-
-theorem invC_reachable {cfg : Cfg} {s : St} (h : Reachable cfg s) : InvC cfg s := by
-  induction h with
-  | init => exact invC_init cfg
-  | step hr hs ih => exact invC_step (inv_reachable hr) ih hs
+          exact meas_upd h hf (fun g => { g with pc := .cnt true }) (setPc_eq _ _ _) ⟨rfl, rfl, rfl, rfl, rfl⟩
+            (by rw [hpc]; simp [rem])
+      · rename_i r hpc
+        unfold release
+        split
+        · exact meas_drop h hf rfl ⟨rfl, rfl, rfl, rfl, rfl⟩ (by rw [hpc]; simp [rem])
+        · exact meas_drop h hf rfl ⟨rfl, rfl, rfl, rfl, rfl⟩ (by rw [hpc]; simp [rem])
 
 end OxiVerif.C22
